@@ -2198,6 +2198,14 @@ lys_compile_type(struct lysc_ctx *ctx, struct lysp_node *context_pnode, uint16_t
             basetype = ((struct lys_type_item *)tpdf_chain.objs[tpdf_chain.count - 1])->tpdf->type.compiled->basetype;
             break;
         }
+        if (dummyloops) {
+            /* the rest of the chain is already compiled in the last stored typedef, only units and default value
+             * are being looked for, so the following typedefs are neither freed nor stored */
+            if (tctx_prev != tpdf_chain.objs[tpdf_chain.count - 1]) {
+                free(tctx_prev);
+            }
+            goto preparenext;
+        }
 
         if (tctx->tpdf->type.compiled && (tctx->tpdf->type.compiled->refcount == 1)) {
             /* context recompilation - everything was freed previously (the only reference is from the parsed type itself)
@@ -2257,6 +2265,11 @@ preparenext:
         LY_CHECK_ERR_RET(!tctx, LOGMEM(ctx->ctx), LY_EMEM);
     }
     free(tctx);
+    if (dummyloops && tctx_prev && (tctx_prev != tpdf_chain.objs[tpdf_chain.count - 1])) {
+        /* not stored */
+        free(tctx_prev);
+        tctx_prev = NULL;
+    }
 
     /* basic checks */
     if (basetype == LY_TYPE_UNKNOWN) {
